@@ -116,6 +116,24 @@ def see_through_unpacking(fi, expr):
     return nf.subst(expr, env) if env else expr
 
 
+class _FloorMod(ast.NodeTransformer):
+    def __init__(self, idx, fi):
+        self.idx, self.fi = idx, fi
+
+    def visit_Call(self, node):
+        self.generic_visit(node)
+        if nf.callee_name(node) in ('mod', 'remainder') and len(node.args) == 2 and not node.keywords:
+            d = self.idx.dotted_of(self.fi.module, node.func) if isinstance(node.func, (ast.Attribute, ast.Name)) else None
+            if d in ('numpy.mod', 'numpy.remainder', 'operator.mod'):
+                return ast.BinOp(left=node.args[0], op=ast.Mod(), right=node.args[1])
+        return node
+
+
+def floor_mod_normal_form(idx, fi, expr):
+    from ..index import clone
+    return _FloorMod(idx, fi).visit(clone(expr))
+
+
 def ret_paths(fi):
     return nf.decision_paths(fi.node.body)
 
@@ -271,9 +289,18 @@ def d1_congruence(ctx, idx):
             raise AnalysisError('congruence_comparer: expected a single returning path')
         leaf = paths[0].leaf
         where = lib.loc(fi, leaf.stmt)
-        binds = {}
-        res = nf.classify('_U.within_tolerance(_E % _M, _S % _M)', leaf.expr, binds)
         construct = 'congruence_comparer: decision'
+        # floor-mod spellings (%, np.mod, np.remainder) are one operation; fmod is the truncated remainder
+        expr = floor_mod_normal_form(idx, fi, leaf.expr)
+        trunc = [c for c in ast.walk(expr) if isinstance(c, ast.Call) and nf.callee_name(c) == 'fmod' and len(c.args) == 2]
+        if trunc:
+            r.violation(construct, 'the values are reduced with `%s`: fmod is the TRUNCATED remainder, which keeps the sign of the dividend, '
+                        'so a submission and a target of opposite sign are reduced into different intervals (target 1 modulo 2*pi '
+                        'rejects 1 - 2*pi); congruence needs the floor remainder' % short(trunc[0]), where,
+                        expected='x % modulus (or np.mod / np.remainder)', found=short(trunc[0]))
+            return
+        binds = {}
+        res = nf.classify('_U.within_tolerance(_E % _M, _S % _M)', expr, binds)
         if res == nf.MATCH:
             r.ok(construct, 'within_tolerance(expected % modulus, student % modulus)', where)
             e, m, s, u = binds['_E'], binds['_M'], binds['_S'], binds['_U']
@@ -428,6 +455,44 @@ def d1_eigenvector(ctx, idx):
 
 
 # ----------------------------------------------------------------------------- D1 vector span / phase
+RESIDUALS = ['_T - np.dot(_C, np.linalg.lstsq(_C, _S, rcond=__)[0])', '_T - _C.dot(np.linalg.lstsq(_C, _S, rcond=__)[0])',
+             '_T - _C @ np.linalg.lstsq(_C, _S, rcond=__)[0]', '_T - np.matmul(_C, np.linalg.lstsq(_C, _S, rcond=__)[0])']
+SIZE_OK = [('np.linalg.norm(_R)', 'np.linalg.norm'), ('np.sqrt(np.vdot(_R, _R))', 'np.vdot conjugates its first argument'),
+           ('np.sqrt(np.sum(np.abs(_R) ** 2))', 'sum of |r|^2'), ('np.sqrt(sum(np.abs(_R) ** 2))', 'sum of |r|^2'),
+           ('np.sqrt(np.sum(abs(_R) ** 2))', 'sum of |r|^2'), ('np.sqrt(np.real(np.vdot(_R, _R)))', 'np.vdot'),
+           ('np.sqrt(np.sum(np.square(np.abs(_R))))', 'sum of |r|^2'), ('np.sqrt(np.dot(np.conj(_R), _R))', 'conjugated dot'),
+           ('np.sqrt(np.dot(_R.conj(), _R))', 'conjugated dot')]
+SIZE_BAD = [('np.sqrt(np.dot(_R, _R))', 'np.dot'), ('np.sqrt(_R @ _R)', 'the @ product'), ('np.sqrt(np.sum(_R ** 2))', 'the plain square'),
+            ('np.sqrt(sum(_R ** 2))', 'the plain square'), ('np.sqrt(np.sum(_R * _R))', 'the plain product'),
+            ('np.sqrt(np.sum(np.square(_R)))', 'np.square'), ('np.sqrt(sum(np.square(_R)))', 'np.square'), ('np.sqrt(_R.dot(_R))', '.dot')]
+
+
+def explicit_residual_size(expr, P, S):
+    """('ok'|'bad'|'und', residual, text) when expr is the size of an explicitly computed residual r = student - C.coeffs; else None."""
+    for pats, kind in ((SIZE_OK, 'ok'), (SIZE_BAD, 'bad')):
+        for pat, text in pats:
+            b = nf.match(pat, expr)
+            if b is None:
+                continue
+            rexpr = b['_R']
+            rb = None
+            for rp in RESIDUALS:
+                rb = rb or nf.match(rp, rexpr)
+            if rb is None:
+                if kind == 'bad' and mentions(rexpr, S):
+                    # whatever vector this is, it derives from the (possibly complex) submission
+                    return ('bad', rexpr, text)
+                return ('und', rexpr, 'vector `%s` whose size is taken is not recognised as the least-squares residual' % short(rexpr, 80))
+            t = rb['_T']
+            t_ok = is_name(t, S) or (nf.match('np.array(_X)', t) is not None and is_name(nf.match('np.array(_X)', t)['_X'], S)) \
+                or (nf.match('np.asarray(_X)', t) is not None and is_name(nf.match('np.asarray(_X)', t)['_X'], S))
+            c_ok = mentions(rb['_C'], P) and not mentions(rb['_C'], S)
+            if not (t_ok and is_name(rb['_S'], S) and c_ok):
+                return ('und', rexpr, 'residual `%s` is not student - columns.coeffs' % short(rexpr, 80))
+            return (kind, rexpr, text)
+    return None
+
+
 def d1_span(ctx, idx):
     r = ctx.rule('D1.SPAN', 'vector_span_comparer checks the parameters, refuses zero and tests the least-squares residual '
                  'relative to the student vector', floor=5)
@@ -470,7 +535,19 @@ def d1_span(ctx, idx):
             res = nf.classify(['np.sqrt(np.linalg.lstsq(np.array(_P).transpose(), _S, rcond=__)[1])',
                                'np.sqrt(np.linalg.lstsq(np.array(_P).T, _S, rcond=__)[1])',
                                'np.sqrt(np.linalg.lstsq(np.transpose(np.array(_P)), _S, rcond=__)[1])'], resid, binds)
-            if res == nf.MATCH:
+            explicit = explicit_residual_size(resid, P, S)
+            if explicit is not None:
+                kind, rexpr, text = explicit
+                if kind == 'ok':
+                    r.ok(construct, 'Euclidean size of the residual student - columns.coeffs (%s)' % text, where)
+                elif kind == 'bad':
+                    r.violation(construct, 'the size of the residual is computed as `%s`: %s does not conjugate, so for a complex residual it '
+                                'sums r_k^2 instead of |r_k|^2 and can vanish for a nonzero residual ([0, 1, i] would be accepted as lying in '
+                                'span{[1, 0, 0]})' % (short(resid, 70), text), where,
+                                expected='lstsq(...)[1], np.linalg.norm(r), np.vdot(r, r) or sum(abs(r)**2)', found=short(resid, 90))
+                else:
+                    r.undecided(construct, text, where)
+            elif res == nf.MATCH:
                 if is_name(binds['_P'], P) and is_name(binds['_S'], S):
                     r.ok(construct, 'sqrt of the least-squares residual of the student vector against the column vectors', where)
                 else:
@@ -1696,6 +1773,13 @@ MUTANTS = [
            "    return is_nearly_zero(error, utils.tolerance, reference=comparer_params_eval[0])", 'D1'),
     Mutant('span-validation-removed', CMP, "    utils.validate_shape(student_eval, comparer_params_eval[0].shape)\n", "", 'D2'),
     Mutant('span-residual-index', CMP, "    error = np.sqrt(ols[1])", "    error = np.sqrt(ols[0])", 'D1'),
+    Mutant('seeded-C16c-unconjugated-residual-size', CMP, "    ols = np.linalg.lstsq(column_vectors, student_eval, rcond=-1)\n    error = np.sqrt(ols[1])\n",
+           "    coeffs = np.linalg.lstsq(column_vectors, student_eval, rcond=-1)[0]\n    residual = np.array(student_eval) - np.dot(column_vectors, coeffs)\n    error = np.sqrt(np.dot(residual, residual))\n", 'D1'),
+    Mutant('span-residual-plain-square-sum', CMP, "    ols = np.linalg.lstsq(column_vectors, student_eval, rcond=-1)\n    error = np.sqrt(ols[1])\n",
+           "    coeffs = np.linalg.lstsq(column_vectors, student_eval, rcond=-1)[0]\n    residual = student_eval - column_vectors.dot(coeffs)\n    error = np.sqrt(np.sum(residual**2))\n", 'D1'),
+    Mutant('seeded-C16d-congruence-fmod', CMP, "    expected_reduced = expected % modulus\n    input_reduced = student_eval % modulus\n",
+           "    expected_reduced = np.fmod(expected, modulus)\n    input_reduced = np.fmod(student_eval, modulus)\n", 'D1'),
+    Mutant('congruence-fmod-one-side', CMP, "    input_reduced = student_eval % modulus\n", "    input_reduced = np.fmod(student_eval, modulus)\n", 'D1'),
     Mutant('phase-and-to-or', CMP, "    return in_span and same_magnitude", "    return in_span or same_magnitude", 'D1'),
     Mutant('phase-magnitude-dropped', CMP, "    return in_span and same_magnitude", "    return in_span", 'D1'),
     # ---- D1: MatrixEntryComparer
@@ -1820,6 +1904,12 @@ BENIGN = [
            "        if not hasattr(utils, 'validate_shape'):\n            return\n        if isinstance(expected_eval, Number):\n"
            "            expected_shape = tuple()\n        else:\n            expected_shape = expected_eval.shape\n"
            "        utils.validate_shape(student_eval, expected_shape)\n"),
+    Benign('congruence-np-mod', CMP, "    expected_reduced = expected % modulus\n    input_reduced = student_eval % modulus\n",
+           "    expected_reduced = np.mod(expected, modulus)\n    input_reduced = np.remainder(student_eval, modulus)\n"),
+    Benign('span-explicit-residual-norm', CMP, "    ols = np.linalg.lstsq(column_vectors, student_eval, rcond=-1)\n    error = np.sqrt(ols[1])\n",
+           "    coeffs = np.linalg.lstsq(column_vectors, student_eval, rcond=-1)[0]\n    residual = np.array(student_eval) - np.dot(column_vectors, coeffs)\n    error = np.linalg.norm(residual)\n"),
+    Benign('span-explicit-residual-vdot', CMP, "    ols = np.linalg.lstsq(column_vectors, student_eval, rcond=-1)\n    error = np.sqrt(ols[1])\n",
+           "    coeffs = np.linalg.lstsq(column_vectors, student_eval, rcond=-1)[0]\n    residual = student_eval - np.dot(column_vectors, coeffs)\n    error = np.sqrt(np.vdot(residual, residual))\n"),
     Benign('span-lstsq-tuple-unpacked', CMP,
            "    ols = np.linalg.lstsq(column_vectors, student_eval, rcond=-1)\n    error = np.sqrt(ols[1])\n",
            "    _, residuals, _, _ = np.linalg.lstsq(column_vectors, student_eval, rcond=-1)\n    error = np.sqrt(residuals)\n"),
